@@ -198,6 +198,10 @@ fn run_case(arena: &mut Arena, c: &Case) -> Outcome {
                         out.v.push(("C17", "padding".into(), format!("{} padding byte(s) inside the {}-byte image of a portable type", pad, img.extent)));
                     } else if inactive > 0 {
                         out.v.push(("C17", "senum_inactive_bytes".into(), format!("{} byte(s) of the {}-byte image belong to no field of the active variant of a sized enum: the image is not a function of the content", inactive, img.extent)));
+                    } else if o.size != ser.len() {
+                        // the value's own statement of its encoding (the first size() bytes) is longer or shorter than the
+                        // concatenation: bytes nobody wrote belong to it, or content is left out
+                        out.v.push(("C17", "size_vs_serialisation".into(), format!("size() {} but the reference serialisation of the content has {} bytes", o.size, ser.len())));
                     } else if ser.as_slice() != &after[..ext] {
                         out.v.push(("C17", "serialisation".into(), format!("image {} != reference serialisation {}", hex(&after[..ext]), hex(&ser))));
                     }
